@@ -189,18 +189,18 @@ def residueMass (mono : Bool) (seq : List Char) : Except Err Rat :=
     | none => .error .unknownAA
     | some m => pure (acc + m)) (0 : Rat)
 
-/-- the per-position blocks of the fast path: every one calls `mod_mass(mod)` WITHOUT the monoisotopic flag -/
-def placedModsMass (env : Env) (a : Annotation) (ion : Key) : Except Err Rat := do
-  let lab ← if ion = ionP then sumOptMods env true a.labile else pure 0
-  let unk ← sumOptMods env true a.unknown
-  let nt ← sumOptMods env true a.nterm
+/-- the per-position blocks of the fast path: labile (precursor only), unknown, N-term, intervals, residues, C-term -/
+def placedModsMass (env : Env) (mono : Bool) (a : Annotation) (ion : Key) : Except Err Rat := do
+  let lab ← if ion = ionP then sumOptMods env mono a.labile else pure 0
+  let unk ← sumOptMods env mono a.unknown
+  let nt ← sumOptMods env mono a.nterm
   let ivs ← match a.intervals with
     | none => pure 0
-    | some l => l.foldlM (fun acc iv => do let v ← sumOptMods env true iv.mods; pure (acc + v)) (0 : Rat)
+    | some l => l.foldlM (fun acc iv => do let v ← sumOptMods env mono iv.mods; pure (acc + v)) (0 : Rat)
   let int ← match a.internal with
     | none => pure 0
-    | some l => l.foldlM (fun acc p => do let v ← sumMods env true p.2; pure (acc + v)) (0 : Rat)
-  let ct ← sumOptMods env true a.cterm
+    | some l => l.foldlM (fun acc p => do let v ← sumMods env mono p.2; pure (acc + v)) (0 : Rat)
+  let ct ← sumOptMods env mono a.cterm
   pure (lab + unk + nt + ivs + int + ct)
 
 /-- what `mass` resolves before it branches: charge, charge adducts, isotope labels -/
@@ -223,7 +223,7 @@ def resolveArgs (a : Annotation) (o : Opts) : Except Err Resolved := do
 def fastMass (env : Env) (a : Annotation) (o : Opts) (r : Resolved) : Except Err Rat := do
   let st ← staticMass env o.mono a.seq a.static
   let rs ← residueMass o.mono a.seq
-  let pm ← placedModsMass env a o.ion
+  let pm ← placedModsMass env o.mono a o.ion
   adjustMass (st + rs + pm) r.charge o.ion o.mono o.isotope o.loss r.adducts o.precision
 
 /-- `comp_mass(annotation, ion_type, charge, isotope, charge_adducts, isotope_mods, use_isotope_on_mods)` as used
@@ -240,10 +240,10 @@ def massWith (cm : CompMassFn) (env : Env) (a : Annotation) (o : Opts) : Except 
   else
     match r.isotopeMods with
     | some (m :: ms) => do
-      -- composition path: note that `loss` is not used and `precision` is applied before the delta is added
+      -- composition path (the isotope offset is part of the composition as `n`)
       let (c, d) ← cm env a o.ion r.charge o.isotope r.adducts (some (m :: ms)) o.useIsotopeOnMods
-      let cmass ← chemMass o.mono c o.precision
-      pure (cmass + d)
+      let cmass ← chemMass o.mono c none
+      pure (roundOpt (cmass + d + o.loss) o.precision)
     | _ => fastMass env a o r
 
 /-- `mz(...)`: `mass(..., precision=None)` then `adjust_mz`; `use_isotope_on_mods` is not forwarded -/
